@@ -101,17 +101,14 @@ theorem genProjected_post (env : Env) (md : Meta) (st : Schemas) (hinv : Inv env
       simp only [names_nil] at h3
       have hsub : ∀ k ∈ Schemas.keys (genFields env [] [] true md.flat PTree.nil [] st).2.2,
           k ∈ Schemas.keys ((schemaName name pkg ++ s "Body",
-            Tree.node { kind := Kind.object, required := (genFields env [] [] true md.flat PTree.nil [] st).2.1 } OTree.none
-              (genFields env [] [] true md.flat PTree.nil [] st).1 OTree.none) ::
+            objNode (genFields env [] [] true md.flat PTree.nil [] st).2.1 (genFields env [] [] true md.flat PTree.nil [] st).1) ::
             (genFields env [] [] true md.flat PTree.nil [] st).2.2) := by
         intro k hk'
         simp only [Schemas.keys, List.map_cons]
         exact List.mem_cons_of_mem _ hk'
       refine ⟨fun k hk' => hsub k (h1 k hk'), ?_, ?_⟩
       · apply Inv.register h2 (bodyName_ok name pkg)
-        apply Good.mono hsub
-        simp only [Good, Tree.All, OTree.All, and_true, true_and]
-        exact ⟨h4, h3⟩
+        exact Good.mono hsub (good_objNode h4 h3)
       · apply good_ref
         simp [Schemas.keys]
   next => exact ⟨fun _ h => h, hinv, good_object _⟩
